@@ -123,6 +123,21 @@ def engines_build():
         raise Stage('c++ build (engines)', '\n'.join(logs)[-3000:])
     return exes
 
+def mpireal_build():
+    """C04: the drivers under real MPI (mpicxx / mpirun are installed and work offline)"""
+    key = tree_hash([os.path.join(REPO, 'include'), os.path.join(VERIF, 'harness', 'cxx', 'mpireal.cpp')], ('.hpp', '.cpp'))
+    out = os.path.join(BUILD, 'mpireal-' + key)
+    exe = os.path.join(out, 'mpireal')
+    if os.path.exists(exe):
+        os.utime(out); return exe
+    evict('mpireal-', '')
+    os.makedirs(out, exist_ok=True)
+    rc, log = sh(['mpicxx', '-std=c++11', '-O1', '-ffp-contract=off', '-I%s/include' % REPO, os.path.join(VERIF, 'harness', 'cxx', 'mpireal.cpp'), '-o', exe], timeout=900)
+    if rc != 0:
+        shutil.rmtree(out, ignore_errors=True)
+        raise Stage('c++ build (real MPI)', log[-3000:])
+    return exe
+
 def run_engines(seed):
     """returns (lines starting with FAIL, summary dict)"""
     fails = []; ok = 0
